@@ -22,6 +22,8 @@ type vreader struct {
 	faultAt int
 	once    bool
 	done    bool
+	// dataEOF: the Read that hands out the last bytes returns them together with io.EOF (allowed by the io.Reader contract)
+	dataEOF bool
 }
 
 func (r *vreader) Read(p []byte) (int, error) {
@@ -51,6 +53,9 @@ func (r *vreader) Read(p []byte) (int, error) {
 	}
 	copy(p, r.data[r.pos:r.pos+n])
 	r.pos += n
+	if r.dataEOF && r.pos == len(r.data) {
+		return n, io.EOF
+	}
 	return n, nil
 }
 
@@ -179,6 +184,10 @@ func init() {
 			vr.faultAt, vr.once = f.At, f.Once
 		}
 		var rd io.Reader
+		if strings.HasSuffix(kind, "+dataeof") {
+			vr.dataEOF = true
+			kind = strings.TrimSuffix(kind, "+dataeof")
+		}
 		switch kind {
 		case "seek":
 			rd = vseeker{vr}
@@ -190,9 +199,10 @@ func init() {
 			// buffers just large enough to be peeked for auto-detection: behave like the default-size bufio.Reader
 			n := map[string]int{"bufio193": 193, "bufio194": 194, "bufio256": 256}[kind]
 			rd = bufio.NewReaderSize(vr, n)
-		case "bufio192":
-			// one byte too small to peek 193 bytes: read like a plain reader
-			rd = bufio.NewReaderSize(vr, 192)
+		case "bufio188", "bufio190", "bufio192":
+			// too small to peek 193 bytes: read like a plain reader
+			n := map[string]int{"bufio188": 188, "bufio190": 190, "bufio192": 192}[kind]
+			rd = bufio.NewReaderSize(vr, n)
 		default:
 			rd = vr
 		}
